@@ -1,4 +1,5 @@
 import Driver.Common
+import Driver.OpsHist
 import Driver.OpsMass
 import Driver.OpsNet
 import Driver.OpsPT
@@ -6,6 +7,7 @@ import Driver.OpsSP
 import Driver.OpsTrain
 namespace Driver
 def allHandlers : List (String × Handler) :=
+  Driver.OpsHist.handlers ++
   Driver.OpsMass.handlers ++
   Driver.OpsNet.handlers ++
   Driver.OpsPT.handlers ++
